@@ -244,6 +244,9 @@ def run(repo, rep, tier):
         "'every failed validation ends in raise / nothing is dropped, duplicated or defaulted', not the behaviour of "
         "fromJson on concrete documents."
     )
+    rep.extra["explanation"] += " " + (
+        'Later additions: tag lookup level and hasKeys helper rules (R15.3); reader/ed agreement on the representation of `entries` (R15.6); shared rules of C04: (R15.7) every child fragment is parsed by the factory of its own tag, (R15.8) every object the writer emits is read behind a closed hasKeys gate.'
+    )
     rep.not_decided += [
         "arithmetic meaning of version.compatible",
         "duplicate keys after normalisation ('1' vs '01')",
